@@ -66,6 +66,24 @@ def diff(a, b):
     return sorted(k for k in set(a) | set(b) if a.get(k) != b.get(k))
 
 
+def connect_pure(copts, sopts, labels):
+    """sc.connect, plus: the settings objects handed to the handshake calls
+    (which validate them once more, into copies that share their lists) are
+    what they were before. Returns (pair, violation or None)."""
+    before = {"client": snapshot(copts["settings"]),
+              "server": snapshot(sopts["settings"])}
+    p = sc.connect(copts, sopts)
+    for who, o in (("client", copts), ("server", sopts)):
+        d = diff(before[who], snapshot(o["settings"]))
+        if d:
+            return p, bad("handshake-modifies-settings:%s:%s" % (
+                who, ",".join(d)),
+                "%s: %r -> %r" % (d[0], before[who].get(d[0]),
+                                  vars(o["settings"]).get(d[0])),
+                labels=labels)
+    return p, None
+
+
 BAD_VALUES = {
     "minKeySize": [511, 16385, 0, -1],
     "maxKeySize": [511, 16385, 100000],
@@ -386,7 +404,9 @@ def check_connect(case):
     except ValueError:
         return good(nt=False, labels=labels + ["invalid-settings"])
     DET.reseed("C19", case.get("salt", 0))
-    p = sc.connect(copts, sopts)
+    p, r = connect_pure(copts, sopts, labels)
+    if r:
+        return r
     labels.append("ver=" + sc.VERNAME[w[0]])
     nt = case["c"] != case["s"]
     if not p.both_ok:
@@ -529,6 +549,9 @@ ORTHO = {
     "sendFallbackSCSV": [None, False],
     "useExperimentalTackExtension": [None, True],
     "ec_point_formats": [None, [0]],
+    # (shares other than the peer's first choice: HelloRetryRequest)
+    "keyShares": [None, [], ["x25519"], ["secp521r1"], ["ffdhe2048"],
+                  ["x448", "secp384r1"]],
     "useExtendedMasterSecret": [None, False],
     "useEncryptThenMAC": [None, False],
 }
@@ -559,7 +582,9 @@ def check_ortho(case):
     if case.get("tickets"):
         ss.ticketKeys = [bytearray(b"o" * 32)]
     DET.reseed("C19o", v, case["field"], case["idx"], case["who"])
-    p = sc.connect(client, server)
+    p, r = connect_pure(client, server, labels)
+    if r:
+        return r
     ok = p.both_ok
     if ok and case.get("auth") and v == (3, 4) and not case.get("no_pha"):
         # post-handshake authentication uses the same settings
@@ -629,7 +654,9 @@ def check_connect_psk(case):
     except ValueError:
         return good(nt=False, labels=labels + ["invalid-settings"])
     DET.reseed("C19", case.get("salt", 0))
-    p = sc.connect(copts, sopts)
+    p, r = connect_pure(copts, sopts, labels)
+    if r:
+        return r
     form = "%s/%s" % ("2-tuple" if k["hash"] is None else "3-tuple",
                       "2-tuple" if k["c_hash"] is None else "3-tuple")
     labels += ["psk-form=" + form,
